@@ -247,6 +247,22 @@ def cstr_value(p, maxlen=4096):
     return bytes(out).decode("latin-1")
 
 
+SHARED_STATICS = {}
+
+
+def _zero_array(cs):
+    """zeros in the shape a canonical array type spells (`unsigned char[16][8]`)"""
+    import re
+    dims = [int(x) for x in re.findall(r"\[(\d+)\]", cs)]
+    if not dims:
+        return None
+    leaf = (lambda: {}) if re.match(r"\s*(const\s+)?(struct|union)\b", cs) else (lambda: 0)
+
+    def mk(ds):
+        return [mk(ds[1:]) for _ in range(ds[0])] if len(ds) > 1 else [leaf() for _ in range(ds[0])]
+    return mk(dims)
+
+
 class Folder:
     def __init__(self, fn, calls=None, max_steps=20000, depth=0, inline=False):
         self.fn = fn
@@ -261,7 +277,9 @@ class Folder:
         self._tabs = {}
         # local variables with static storage: (function, decl id) -> value, kept from one call to the next.  A decoder that hands
         # the same dict to successive folds sees what the routine remembers between calls.
-        self.statics = {}
+        # what static locals hold is kept between folds of one process (as in the running program): a result that depends
+        # on what was computed before shows up as a wrong value.  Set `statics = {}` for a run without history.
+        self.statics = SHARED_STATICS
         self._static_ds = []
 
     def truth(self, v):
@@ -887,12 +905,17 @@ class Folder:
         elif k == "DeclStmt":
             for v in kids(s):
                 if v.get("k") == "Var":
-                    if v.get("static") and not (self.types[v["t"]] if v.get("t") is not None else {}).get("arr") \
-                            and "const" not in (self.types[v["t"]] if v.get("t") is not None else {}).get("s", "").split("*")[-1]:
+                    ty0 = self.types[v["t"]] if v.get("t") is not None else {}
+                    if v.get("static") and not (ty0.get("arr") and kids(v)) \
+                            and "const" not in ty0.get("s", "").split("*")[-1]:
                         sk = (self.fn.name, v["d"])
                         if sk not in self.statics:
-                            ty = self.types[v["t"]] if v.get("t") is not None else {}
-                            self.statics[sk] = self.ev(kids(v)[0]) if kids(v) else ({} if ty.get("rec") is not None else 0)
+                            ty = ty0
+                            if ty.get("arr"):
+                                # a writable static array without initialiser: zeros in its declared shape, kept between calls
+                                self.statics[sk] = _zero_array(ty.get("c", ""))
+                            else:
+                                self.statics[sk] = self.ev(kids(v)[0]) if kids(v) else ({} if ty.get("rec") is not None else 0)
                         self.env[v["d"]] = self.statics[sk]
                         self._static_ds.append(v["d"])
                         continue
@@ -915,7 +938,7 @@ class Folder:
                     else:
                         ty = self.types[v["t"]] if v.get("t") is not None else {}
                         if ty.get("arr"):
-                            self.env.setdefault(v["d"], [0] * int(ty["arr"]))
+                            self.env.setdefault(v["d"], _zero_array(ty.get("c", "")) or [0] * int(ty["arr"]))
                         else:
                             self.env.setdefault(v["d"], {} if ty.get("rec") is not None else 0)
         elif k == "IfStmt":
